@@ -42,24 +42,36 @@ PROPS = {
         lean_modules=["Properties.C15"],
         extract=[dict(name="extract-gerror", cmd=["go", "-C", "harness", "run", "./cmd/extract-gerror", "-out", "../lean/Generated"])],
         harness=[dict(bin="h-gerrclone")],
-        trusted=[GO_TRUST % "h-gerrclone"],
-        assumptions=[],
-        level_text="wip",
-        level_note="wip",
-        technique="Lean 4 proof + differential correspondence",
-        explanation="wip",
+        trusted=[GO_TRUST % "h-gerrclone",
+                 "the extractor harness/cmd/extract-gerror (go/ast; only extracts the CloneBase argument tuples, StackType constants and store sites)",
+                 "fmt.Sprintf (applied by the harness, its result is an input of the model), strings.TrimSpace / unicode.IsSpace (re-implemented in Lean and compared differentially), runtime.Callers / FuncForPC (the call stack is an input of the model, recorded by the harness with runtime.CallersFrames)",
+                 "Go memory model: goroutines that do not synchronise race exactly when two of them access one location and one access is a write; the allocator returns memory not reachable by anyone else"],
+        assumptions=["strings are valid UTF-8 (the quantifier says unicode); invalid byte sequences are compared only in the out-of-domain stream",
+                     "an empty base message contributes nothing to the joined message (no leading space); empty detail tags contribute nothing",
+                     "source law: the caller's frame name does not start with github.com/drshriveer/gtools/gerror.Stack (what getCurrentPackage really computes), i.e. the caller is not a function of package gerror named Stack*",
+                     "race/immutability theorems: memory at object granularity; goroutines only derive (no synchronisation between them), start from objects that existed before, and continue on their own results",
+                     "factoryRef / srcError / isFactory are not part of the model record (C06)"],
+        level_text="Machine-checked Lean 4 theorems (kernel-only axioms) over a statement-by-statement mirror of CloneBase (factory.go), of the 19 factory methods' argument wiring (gerror.go) and of makeStack/NearestExternal/SourceInfo/Metric (stack.go), for EVERY factory, EVERY chain of any length and all arguments: message_law (base message then each non-blank extension, TrimSpace'd, single spaces; TrimSpace itself characterised by trimSpace_spec), dtag_law ('-'-joined), source_law with source_never_overwritten / source_first_wins / source_derived_unless_base (derived = Metric of the caller frame, never empty), stack_law / stack_iff_stack_method / stack_persists, name_law; factory_unchanged (any number of derivations by anyone, in any order, leave every pre-existing object unchanged), derivations_write_only_fresh and no_data_race (any number of goroutines, any chain lengths, every interleaving). Tie to /repo on every run: (A) regenerated tables checked by `decide` - method_wiring (each method hands CloneBase the stack type and the parameters its name promises, by position), factory_methods_covered, stack_constants, stores_fresh_or_local (every store in CloneBase, the stack helpers and all *GError methods targets a just-allocated object or a local); (B) differential execution of model and real code on chains from 8 kinds of call site, observing every intermediate error and all objects afterwards, plus StackElem.Metric and TrimSpace on their own; plus one 16-goroutine run of the chains under the race detector (supporting evidence only).",
+        level_note="Trusted: Lean kernel + propext/Classical.choice/Quot.sound; the extractor, Go harness and Lean driver; fmt, runtime stack capture (frame names are inputs, captured independently by the harness) and the Go memory model as stated. The race clause is proved on an object-granular access model whose write sets are regenerated from the source (syntactic go/ast classification, not SSA/escape analysis); the -race run is evidence, not proof.",
+        technique="Lean 4 proof (induction over derivation chains; access-set argument for races) + regenerated wiring/write-set tables checked by decide + differential correspondence on call histories",
+        explanation="chain laws for all chains by induction; wiring and write sets regenerated from gerror.go/factory.go/stack.go and checked by decide; correspondence on random chains from many call sites; -race run as supporting evidence",
     ),
     "C09": dict(
         title="gerror: generated extension types match the base type on every method",
         lean_modules=["Properties.C09"],
         extract=[dict(name="extract-gerror", cmd=["go", "-C", "harness", "run", "./cmd/extract-gerror", "-out", "../lean/Generated"])],
         harness=[dict(bin="h-gerrclone")],
-        trusted=[GO_TRUST % "h-gerrclone"],
-        assumptions=[],
-        level_text="wip",
-        level_note="wip",
-        technique="Lean 4 proof + differential correspondence",
-        explanation="wip",
+        trusted=[GO_TRUST % "h-gerrclone",
+                 "the extractor harness/cmd/extract-gerror (text/template/parse + go/ast over the flattened template; only extracts)",
+                 "text/template, go/format and the Go compiler (the generated file is produced by the real CLI and compiled; not modelled)",
+                 "fmt %v rendering of field values (an input of the model)"],
+        assumptions=["extension factories are made with FactoryOf; field names are distinct Go identifiers that do not collide with GError's own fields/methods",
+                     "print names without format verbs: the template pastes the print name into a fmt format string, a name containing % is compared in the out-of-domain stream only",
+                     "with -skipConvertGen, Convert/ConvertS are the user's code and are not called"],
+        level_text="Machine-checked Lean 4 theorems over tables REGENERATED on every run from gerror/gen/gerror.gotmpl (template parse tree flattened to Go, each stanza's CloneBase argument tuple, its {{if}} guards, the shape of toPrimaryType and the order of Error()'s parts) and from gerror/gerror.go: tmpl_rows_eq_base_rows (all 19 stanzas pass exactly what the base methods pass, `decide`), tmpl_guards, tmpl_shape; from these, for EVERY extension definition, method, argument tuple, call stack and factory: ext_eq_base and ext_chain_eq_base_chain (name/message/source/detail tag/stack of the extension result equal the plain-GError result, so all C15 chain laws carry over), clone_fields_copied, nonclone_fields_zero, error_lists_print_fields + print_fields_exact (exactly the print fields, once each, sorted by field name, under their print names, between source and message). legacy_tmpl_srcS_violates keeps the pinned template's SrcS stanza as a witness. Correspondence: random extension structs generated by the real CLI (with and without -skipConvertGen) into scratch packages, compiled with a probe; every method called on extension and plain factory from one function and compared with the specification's answer.",
+        level_note="Trusted: Lean kernel + standard axioms; the extractor; the harness, probe and driver; text/template, gofmt and the Go compiler. The theorems are about the regenerated tables plus the common stanza shape (clone := CloneBase(...); return e.toPrimaryType(clone)), which the extractor enforces; the field-parsing part of generate.go (struct tags -> print/clone/name) is modelled (filter + sort by name) and covered by the correspondence, not proved against go/types.",
+        technique="Lean 4 proof over tables regenerated from the template and the base methods (decide) + structural proofs for clone/print fields + differential correspondence through the real generator",
+        explanation="template and base tables regenerated and compared by the kernel; extension = base for all definitions/methods/arguments; correspondence through the real CLI",
     ),
 }
 
